@@ -23,10 +23,7 @@ func init() {
 			// the same fixed inputs through all instantiations in opposite
 			// orders, each in its own fresh process: results must not depend on
 			// what the process converted before
-			bs = append(bs, Batch{Name: "digest-forward", Mode: "digest-forward", NBatch: 1, WatchdogS: 600, Weight: 1})
-			bs = append(bs, Batch{Name: "digest-reverse", Mode: "digest-reverse", NBatch: 1, WatchdogS: 600, Weight: 1})
-			bs = append(bs, Batch{Name: "digest-interleaved", Mode: "digest-interleaved", NBatch: 1, WatchdogS: 600, Weight: 1})
-			return bs
+			return append(bs, digestBatches()...)
 		},
 		Run: runC05,
 	})
@@ -75,8 +72,27 @@ func nearestF32OK(v float64, r float64) bool {
 // c05Digests converts one fixed input vector per instantiation (a function of
 // the instantiation only) and reports a digest of the results; the driver
 // requires the digests of different processes to agree.
-func c05Digests(c *core.Ctx) {
-	all := dyn.AllConvs()
+func c05Digests(c *core.Ctx) { convDigests(c, func(*dyn.ConvOp) bool { return true }) }
+
+// digestBatches are the three fresh processes that visit the instantiations
+// in different orders.
+func digestBatches() []Batch {
+	return []Batch{
+		{Name: "digest-forward", Mode: "digest-forward", NBatch: 1, WatchdogS: 600, Weight: 1},
+		{Name: "digest-reverse", Mode: "digest-reverse", NBatch: 1, WatchdogS: 600, Weight: 1},
+		{Name: "digest-interleaved", Mode: "digest-interleaved", NBatch: 1, WatchdogS: 600, Weight: 1},
+	}
+}
+
+func isDigestMode(mode string) bool { return len(mode) > 6 && mode[:6] == "digest" }
+
+func convDigests(c *core.Ctx, keep func(*dyn.ConvOp) bool) {
+	var all []*dyn.ConvOp
+	for _, cv := range dyn.AllConvs() {
+		if keep(cv) {
+			all = append(all, cv)
+		}
+	}
 	order := make([]int, len(all))
 	for i := range order {
 		order[i] = i
@@ -135,7 +151,7 @@ func c05Digests(c *core.Ctx) {
 }
 
 func runC05(c *core.Ctx) {
-	if len(c.Mode) > 6 && c.Mode[:6] == "digest" {
+	if isDigestMode(c.Mode) {
 		c05Digests(c)
 		return
 	}
